@@ -37,7 +37,12 @@ pub fn scenarios() -> Vec<&'static dyn Scenario> {
 }
 
 fn g(k: usize) -> Gate {
-    Gate::from(format!("protocol/verif-prss{k}").as_str())
+    // steps 4..6 have long names that differ only after a common prefix of more than 100 bytes (deep step trees do)
+    if (4..7).contains(&k) {
+        Gate::from(format!("protocol/verif-prss-deep/{}/leaf{k}", "binary_validator/row_chunk_000/".repeat(4)).as_str())
+    } else {
+        Gate::from(format!("protocol/verif-prss{k}").as_str())
+    }
 }
 
 /// (left blocks, right blocks) for one query
@@ -57,6 +62,16 @@ fn query(ep: &Endpoint, gate: usize, index: u32, blocks: usize) -> Draw {
         16 => {
             let (l, r) = prss.generate_arrays::<_, U16>(index);
             (l.to_vec(), r.to_vec())
+        }
+        2049 => {
+            // one block at a time up to and including the last permitted offset (2^11 itself)
+            let mut l = Vec::new();
+            let mut r = Vec::new();
+            for (a, b) in prss.generate_chunks_iter::<_, typenum::U1>(index).take(2049) {
+                l.extend_from_slice(&a);
+                r.extend_from_slice(&b);
+            }
+            (l, r)
         }
         _ => {
             // up to the documented offset cap (2^11 blocks for one index)
@@ -84,14 +99,14 @@ impl Scenario for PrssScenario {
         let mut seen = BTreeSet::new();
         let mut queries = Vec::new();
         for _ in 0..nq {
-            let gate = r.below(4);
+            let gate = r.below(7);
             let index = match r.below(4) {
                 0 => r.below(4) as u32,
                 1 => u32::MAX - r.below(3) as u32,
                 _ => (r.next_u64() & 0xffff_ffff) as u32,
             };
             if seen.insert((gate, index)) {
-                queries.push(json!({"gate": gate, "index": index, "blocks": r.pick(&[1usize, 1, 1, 2, 16, 2048])}));
+                queries.push(json!({"gate": gate, "index": index, "blocks": r.pick(&[1usize, 1, 1, 2, 16, 2048, 2049])}));
             }
         }
         json!({"mode": if r.chance(1, 2) { "negotiate" } else { "participants" }, "queries": queries,
@@ -108,7 +123,7 @@ impl Scenario for PrssScenario {
         let (active, read_size, world_seed) = (pu(knobs, "active"), pu(knobs, "read_size"), pu64(knobs, "world_seed"));
         {
             let mut s = BTreeSet::new();
-            if queries.iter().any(|q| !s.insert((q.0, q.1)) || ![1usize, 2, 16, 2048].contains(&q.2) || q.0 >= 7) || !active.is_power_of_two() || active < 2 || read_size == 0 {
+            if queries.iter().any(|q| !s.insert((q.0, q.1)) || ![1usize, 2, 16, 2048, 2049].contains(&q.2) || q.0 >= 7) || !active.is_power_of_two() || active < 2 || read_size == 0 {
                 return RunRes::invalid("prss: plan");
             }
         }
@@ -191,7 +206,9 @@ impl Scenario for PrssScenario {
         let mut res = RunRes::pass(shape, outcome.decisions > 0 || !negotiate_mode, Some(outcome));
         res.probe("blocks_compared", blocks_total);
         res.probe("negotiated_over_network", u64::from(negotiate_mode));
-        res.probe("multi_block_to_offset_cap", queries.iter().filter(|q| q.2 == 2048).count() as u64);
+        res.probe("multi_block_to_offset_cap", queries.iter().filter(|q| q.2 >= 2048).count() as u64);
+        res.probe("last_permitted_offset", queries.iter().filter(|q| q.2 == 2049).count() as u64);
+        res.probe("long_step_names", queries.iter().filter(|q| (4..7).contains(&q.0)).count() as u64);
         res
     }
 }
